@@ -404,6 +404,10 @@ func length3(flatCoords []float64, offset int, endss [][]int, stride int) float6
 }
 
 func reverse1(flatCoords []float64, offset, end, stride int) {
+	if stride == 0 {
+		// A geometry without a layout has no coordinates; the loop below would never end.
+		return
+	}
 	for i, j := offset+stride, end; i <= j; i, j = i+stride, j-stride {
 		for k := range stride {
 			flatCoords[i-stride+k], flatCoords[j-stride+k] = flatCoords[j-stride+k], flatCoords[i-stride+k]
